@@ -325,7 +325,8 @@ fn do_key<S: CmdSet>(x: &mut Ctx<'_, S>, op: &Op, what: &str) -> Result<(), Fail
         let wc0 = x.s.sink.borrow().write_calls;
         let row0 = x.screen.row;
         let inside = x.inside();
-        x.s.byte(b).map_err(|e| (format!("{} byte {:#04x}: Ok", what, b), format!("{:?}", e)))?;
+        let alt = x.cfg.other_set && matches!(op, Op::Char(_) | Op::Backspace | Op::Left | Op::Right | Op::Up | Op::Down);
+        if alt { x.s.byte_other_set(b) } else { x.s.byte(b) }.map_err(|e| (format!("{} byte {:#04x}: Ok", what, b), format!("{:?}", e)))?;
         let out = x.s.out_from(o0);
         let wc = x.s.sink.borrow().write_calls - wc0;
         let new_calls = x.s.proc_.log[calls0..].to_vec();
@@ -819,6 +820,7 @@ pub fn case_strategy(o: GenOpts, sets: &'static [&'static str]) -> impl Strategy
                 enter_style: es,
                 use_new: un == 0,
                 arrow_params: ap == 0,
+                other_set: ap == 1 || un == 1,
             },
             ops,
         })
